@@ -294,7 +294,13 @@ def run_case(ctx, rng, idx):
                     rng.shuffle(order)
                     for cl in order:
                         if cl.connected and not cl.cutoff:
-                            cl.serviceTxes()
+                            try:
+                                cl.serviceTxes()
+                            except OSError:
+                                # the harness' own client writes to a connection the server has closed (EPIPE propagates
+                                # from Client.send by design): the client end is gone, not a server-side event
+                                cl.cutoff = True
+                                ctx.hit("harness_client_write_after_server_close")
                     serve()
                     for cl in order:
                         if cl.connected and not cl.cutoff:
